@@ -277,7 +277,18 @@ func (c *shuffleClient) Versions(ctx context.Context, pk resolve.PackageKey) ([]
 // LocalClient hands out its internal slices, and both deps.dev's MatchRequirement (npm) and the Maven
 // resolver sort what they are given in place. Every answer is a fresh copy here.
 type safeClient struct {
-	lc *resolve.LocalClient
+	lc     *resolve.LocalClient
+	hidden map[resolve.VersionKey]bool // served by Version / Requirements, not listed by Versions
+}
+
+func (c safeClient) listed(vs []resolve.Version) []resolve.Version {
+	out := make([]resolve.Version, 0, len(vs))
+	for _, v := range vs {
+		if !c.hidden[v.VersionKey] {
+			out = append(out, v)
+		}
+	}
+	return out
 }
 
 func (c safeClient) Version(ctx context.Context, vk resolve.VersionKey) (resolve.Version, error) {
@@ -286,7 +297,7 @@ func (c safeClient) Version(ctx context.Context, vk resolve.VersionKey) (resolve
 
 func (c safeClient) Versions(ctx context.Context, pk resolve.PackageKey) ([]resolve.Version, error) {
 	vs, err := c.lc.Versions(ctx, pk)
-	return append([]resolve.Version(nil), vs...), err
+	return c.listed(vs), err
 }
 
 func (c safeClient) Requirements(ctx context.Context, vk resolve.VersionKey) ([]resolve.RequirementVersion, error) {
@@ -299,7 +310,7 @@ func (c safeClient) MatchingVersions(ctx context.Context, vk resolve.VersionKey)
 	if err != nil {
 		return nil, err
 	}
-	return resolve.MatchRequirement(vk, append([]resolve.Version(nil), vs...)), nil
+	return resolve.MatchRequirement(vk, c.listed(vs)), nil
 }
 
 // ---------------------------------------------------------------- watchdog
